@@ -23,10 +23,10 @@ def envelope(r):
     return 4.0 * (1.0 + math.log(r)) ** 2 / r
 
 
-CASES_QUICK = [("CC", "F2", "charm", 3, 1, "charm"), ("CC", "F3", "bottom", 3, 1, "bottom"), ("CC", "FL", "charm", 4, 1, "bottom"),
+CASES_QUICK = [("CC", "F2", "charm", 3, 1, "charm"), ("CC", "F3", "bottom", 3, 1, "bottom"), ("CC", "FL", "charm", 3, 1, "charm"),
                ("NC", "g1", "charm", 3, 1, "charm"), ("NC", "g1", "bottom", 3, 1, "bottom"),
                ("NC", "F3", "light", 3, 2, "charm"), ("NC", "g1", "light", 4, 2, "bottom")]
-CASES_MORE = [("CC", "F2", "bottom", 3, 1, "bottom"), ("CC", "FL", "charm", 3, 1, "charm"), ("CC", "F3", "charm", 3, 1, "charm"), ("CC", "F2", "bottom", 4, 1, "bottom"),
+CASES_MORE = [("CC", "F2", "bottom", 3, 1, "bottom"), ("CC", "FL", "bottom", 4, 1, "bottom"), ("CC", "F3", "charm", 3, 1, "charm"), ("CC", "F2", "bottom", 4, 1, "bottom"),
               ("NC", "g1", "bottom", 4, 1, "bottom"), ("EM", "g1", "charm", 3, 1, "charm"), ("NC", "F3", "light", 4, 2, "bottom"), ("EM", "g1", "light", 3, 2, "charm"),
               ("CC", "FL", "bottom", 3, 1, "bottom"), ("CC", "F3", "charm", 4, 1, "bottom")]
 
